@@ -339,16 +339,16 @@ func TestC06_StaleFrames(t *testing.T) {
 			})
 			srv, err := netfx.StartServer(handler, log, opts)
 			if err != nil {
-				rt.Fatalf("infrastructure: %v", err)
+				ev.InfraSkip(rt, c06, "%v", err)
 			}
 			defer srv.Stop()
 			peer, err := netfx.DialRaw(srv.Addr)
 			if err != nil {
-				rt.Fatalf("infrastructure: %v", err)
+				ev.InfraSkip(rt, c06, "%v", err)
 			}
 			defer peer.Close()
 			if _, err := peer.ClientHandshake(false); err != nil {
-				rt.Fatalf("infrastructure: %v", err)
+				ev.InfraSkip(rt, c06, "%v", err)
 			}
 			echo := func(id netfx.ID, what string) bool {
 				peer.WriteMsg(netfx.OpenMsg(id, 1<<20, []byte("hello-"+what)))
@@ -380,24 +380,24 @@ func TestC06_StaleFrames(t *testing.T) {
 		} else {
 			rs, err := newRawServer()
 			if err != nil {
-				rt.Fatalf("infrastructure: %v", err)
+				ev.InfraSkip(rt, c06, "%v", err)
 			}
 			defer rs.close()
 			conn, st := mpx.Connect(ctxNone(), rs.ln.Addr().String(), log, opts)
 			if !st.OK() {
-				rt.Fatalf("infrastructure: %v", st)
+				ev.InfraSkip(rt, c06, "%v", st)
 			}
 			defer conn.Close()
 			var peer *netfx.RawPeer
 			select {
 			case peer = <-rs.peers:
 			case <-time.After(boundArrive()):
-				rt.Fatalf("infrastructure: no raw peer")
+				ev.InfraSkip(rt, c06, "no raw peer")
 			}
 			defer peer.Close()
 			ch, st := conn.Channel(ctxNone())
 			if !st.OK() {
-				rt.Fatalf("infrastructure: %v", st)
+				ev.InfraSkip(rt, c06, "%v", st)
 			}
 			ch.Send(ctxNone(), []byte("x"))
 			f, ok := rs.next(boundArrive())
